@@ -225,8 +225,8 @@ def check_files_shared(case: typing.Any, ctx: Ctx) -> Info:
         def ids(indices: typing.Iterable[int]) -> typing.List[typing.Any]:
             return [(wsp.full_name(ws, ws["defs"][i]), ws["defs"][i]["version"][0], ws["defs"][i]["version"][1]) for i in indices]
 
-        def run(paths: typing.List[typing.Any], roots: typing.Any, lookups: typing.Any, what: str) -> typing.Any:
-            with nu.cwd(d), nu.salted_hashes(case["salt"] if what.endswith("variant") else 0):
+        def run(paths: typing.List[typing.Any], roots: typing.Any, lookups: typing.Any, what: str, cwd: str = d) -> typing.Any:
+            with nu.cwd(cwd), nu.salted_hashes(case["salt"] if what.endswith("variant") else 0):
                 (direct, trans), _ = guarded(pydsdl.read_files, paths, roots, lookups, what=what)
             gd, gt = [wsp.ident(t) for t in direct], [wsp.ident(t) for t in trans]
             w = where + " call paths=%r roots=%r lookups=%r" % (paths, roots, lookups)
@@ -243,7 +243,7 @@ def check_files_shared(case: typing.Any, ctx: Ctx) -> Info:
         # to be named somewhere
         target_roots = {ws["defs"][i]["root"] for i in targets}
         other_roots = sorted({ws["defs"][i]["root"] for i in closure} - target_roots)
-        how = case["how"] % 4
+        how = case["how"] % 5
         style = case["style"]
         spelled_others = [nu.spell_directory(d, wsp.root_dir(ws, r), style + r, os.path.join(d, "links")) for r in other_roots]
         roots_arg: typing.Any = [name]
@@ -261,9 +261,19 @@ def check_files_shared(case: typing.Any, ctx: Ctx) -> Info:
         if len(roots_arg) == 1 and case["salt"] % 2:
             roots_arg = roots_arg[0]
         paths = abs_paths if how != 3 else [wsp.rel_path(ws, ws["defs"][i]) for i in targets]
+        cwd = d
+        if how == 4:
+            # the documented relative form "<root namespace>/<nested namespaces>/File" - to be found under the parent of one of
+            # the root directories given as paths (the working directory is elsewhere); each target is found where it exists
+            paths = [os.path.relpath(p_, os.path.join(d, ws["roots"][ws["defs"][i]["root"]]["parent"])) for p_, i in zip(abs_paths, targets)]
+            roots_arg = [nu.spell_directory(d, wsp.root_dir(ws, r), 0 if style % 2 else 1, os.path.join(d, "links")) for r in range(len(ws["roots"]))]
+            if case["salt"] % 3 == 0:
+                roots_arg = list(reversed(roots_arg))
+            lookups_arg = None
+            cwd = os.path.join(d, "links")
         order = case["order"]
         paths = [paths[(k + order) % len(paths)] for k in range(len(paths))]
-        c1 = run(paths, roots_arg, lookups_arg, "read_files:same-name-roots:variant")
+        c1 = run(paths, roots_arg, lookups_arg, "read_files:same-name-roots:variant", cwd)
         require(c1 == c0, "files-result-depends-on-root-designation", c0, c1, where + " roots=%r lookups=%r" % (roots_arg, lookups_arg))
     finally:
         ctx.cleanup(d)
@@ -271,7 +281,11 @@ def check_files_shared(case: typing.Any, ctx: Ctx) -> Info:
     return Info(len(target_roots) >= 2 or bool(want_trans), classes, sample={"targets": [wsp.rel_path(ws, ws["defs"][i]) for i in targets], "roots": repr(roots_arg), "lookups": repr(lookups_arg)})
 
 
-DIR_POOL = ["p0/ns", "p0/ns/sub", "p0/ns/sub/deeper", "p1/ns", "p1/NS", "p1/other", "p2/Other", "p2/nsx", "p3/ns/x/ns", "p2/ns", "p0/nsub", "p0/ns/s"]
+DIR_POOL = ["p0/ns", "p0/ns/sub", "p0/ns/sub/deeper", "p1/ns", "p1/NS", "p1/other", "p2/Other", "p2/nsx", "p3/ns/x/ns", "p2/ns", "p0/nsub", "p0/ns/s",
+            # siblings whose names merely *start* like another directory's; as lookup directories only (they are no valid namespace
+            # names, which matters only for a namespace that is actually read)
+            "p0/ns-backup", "p0/ns (copy)", "p0/ns+", "p0/ns!old", "p1/other-2"]
+N_ROOT_CAPABLE = 12
 
 
 def check_dirsets(case: typing.Any, ctx: Ctx) -> Info:
@@ -284,7 +298,7 @@ def check_dirsets(case: typing.Any, ctx: Ctx) -> Info:
             with open(os.path.join(d, rel, "T%d.1.0.dsdl" % DIR_POOL.index(rel)), "w") as f:
                 f.write("@sealed\n")
         os.makedirs(os.path.join(d, "links"), exist_ok=True)
-        root_rel = DIR_POOL[case["root"] % len(DIR_POOL)]
+        root_rel = DIR_POOL[case["root"] % N_ROOT_CAPABLE]
         lookup_rels = [DIR_POOL[i % len(DIR_POOL)] for i in case["lookups"]]
         chosen = {root_rel} | set(lookup_rels)
 
@@ -419,7 +433,7 @@ def parts(ctx: Ctx) -> typing.List[Part]:
         {
             "ws": wsp.definitions(max_defs=8, roots=3, same_name=True, min_defs=2),
             "targets": st.lists(st.integers(0, 30), min_size=1, max_size=5),
-            "how": st.integers(0, 3),
+            "how": st.integers(0, 4),
             "style": st.integers(0, 9),
             "order": st.integers(0, 7),
             "salt": st.integers(1, 2**31),
